@@ -52,6 +52,33 @@ def run_space(res, tier, kinds=("closure",)):
     return spaces
 
 
+def bind_e1(res, spaces, kinds=("own",), limit=None):
+    """Token-level conformance (DESIGN.md §12.6): E1's expansion under proc_macro2's fallback vs the
+    compiler-backed expansion (`rustc +nightly -Zunpretty=expanded`) for a configuration set hitting every
+    distinct item text. A mismatch means E1 is not bound to the implementation: machinery error, exit 2."""
+    texts = []
+    for k, sp in spaces.items():
+        arch = dict(ARCHETYPES)[k]
+        reps = sorted(cover(sp, kinds))
+        if limit:
+            reps = reps[:: max(1, len(reps) // limit)]
+        for ctext in reps:
+            cfg = e1.cfg_from_text(ctext)
+            texts.append(" ".join("#[enum_tools(%s)]" % a for a in cfg.attr_lines()) + " " + arch)
+    try:
+        out = e1.conformance(texts)
+    except MachineryError as e:
+        res.machinery_error("token-level conformance unavailable: %s" % str(e)[:500])
+        return 0
+    bad = [(t, d) for t, (ok, d) in zip(texts, out) if not ok]
+    for t, d in bad[:3]:
+        res.machinery_error("E1 expansion differs from the compiler-backed expansion for `%s`: %s" % (t[:200], d))
+    n = len(texts) - len(bad)
+    res.validated += n
+    res.extra["e1_conformance"] = {"compared": len(texts), "identical": n, "tokens": sum(d for ok, d in out if ok)}
+    return n
+
+
 def cover(sp, kinds=("closure",)):
     """Configurations hitting every (item, class) pair of the given class kinds: the union of the
     first (simplest) representative of each class."""
@@ -69,6 +96,7 @@ def c09(tier):
     res = Result("C09", tier, "explicit-state enumeration of all legal feature/mode configurations (real generator in-process), "
                                "closure-text classes re-run on the real derive + direct runs of all configurations with <= k features")
     spaces = run_space(res, tier)
+    bind_e1(res, spaces, limit=12)
     covers = {k: cover(sp, ("closure",)) for k, sp in spaces.items()}
     for k, sp in spaces.items():
         if sp["infer"]:
@@ -148,6 +176,7 @@ def c10(tier):
                                "definition, closed reference graph; every distinct local context compiled by rustc; all configurations with "
                                "<= k features built and run; all attribute splittings expanded and compared")
     spaces = run_space(res, tier)
+    bind_e1(res, spaces)
     # T2: E1 candidates, each confirmed on the real toolchain before being reported
     cases = []
     for k, sp in spaces.items():
@@ -359,6 +388,7 @@ def c19(tier):
     res = Result("C19", tier, "exhaustive enumeration of (feature, mode, shape, repr) x signature ascription probes judged by rustc, plus explicit-state enumeration of "
                                "all configurations showing one signature class per user-visible item")
     spaces = run_space(res, tier)
+    bind_e1(res, spaces, limit=12)
     # (1) E1: exactly one signature text per user-visible item over all configurations of an archetype,
     #     and the same text for the gapless and the with-holes archetype of the same repr
     sig = {}
